@@ -33,11 +33,9 @@ Theorem C06_group : forall vals dflt inherits f stack L ns p sub,
   resolve vals dflt inherits (S f) stack L (PForeign ns p []) = Err E_InvalidForeignKey.
 Proof. exact resolve_group. Qed.
 
-(** The full soundness statement (the model's final value denotes the source-level inlining semantics
-    for every acyclic project, independently of the order in which registered paths are visited) is not
-    proved; it is evaluated on every correspondence case through [spec_C06]. *)
-Definition C06_sound_statement : Prop :=
-  forall c ents, f_expect c = None -> model_project c = Ok ents -> spec_C06 (mk_fcase (f_default c) (f_inherits c) (f_files c) (f_src c) None (Ok ents)) = true.
+(** The full soundness theorem (every final value denotes the source-level inlining semantics, for every
+    project whose values are parses of printed well-formed sources, independently of the order in which
+    registered paths are visited) is proved in Props/C06b.v: C06b_sound, C06b_order_independent. *)
 
 (** the two defects repaired in /repo, as the outputs observed before the repair: the spec rejects them.
     k1 = $t(k2, {"x": "A"}), k2 = $t(k3), k3 = [{{ x }}]  rendered  [{{ x }}]  *)
